@@ -605,3 +605,22 @@ def list_builder(fn, name):
     comp = ast.ListComp(elt=apps[0].args[0], generators=gens)
     ast.copy_location(comp, inits[0])
     return comp
+
+
+def callee_texts(call, fn):
+    """normalised texts of what a call may invoke: the callee itself, or — for a local bound to a function or to a
+    conditional choice between functions (`f = np.maximum if c else np.minimum; f(a, b)`) — each alternative"""
+    out = set()
+    todo = [call.func]
+    m = single_assignments(fn) if fn is not None else {}
+    seen = 0
+    while todo and seen < 20:
+        seen += 1
+        f = todo.pop()
+        if isinstance(f, ast.IfExp):
+            todo += [f.body, f.orelse]
+        elif isinstance(f, ast.Name) and f.id in m:
+            todo.append(m[f.id])
+        else:
+            out.add(norm(f))
+    return out
